@@ -11,17 +11,25 @@ REAL model functions (`ser`, `recordValue`, `flushBuffered`, `schemaMut`, `findO
 `hasShape`), all hypotheses proved (`decide +kernel` evaluates the real functions in the kernel).
 
 Findings (each proved here):
-* `recordValue_invariant_hserv_unmeetable`: the hypothesis `hserv` of the registered theorem
-  `C13_recordValue_invariant` (every node, every unlimited state) is false for the value
-  serializer the machine is really run with (`fun node => ser … node v`), for EVERY value `v`.
-  The form the headline theorems use (`recordValue_inv_gen` at `C := PoolClean`) is met by the
-  real `ser` on a nested record (instance below).
-* `flush_invariant_is_identity`: `C13_flush_invariant` "as stated" assumes `RecInv`, under which
-  the loop does nothing (`rs' = rs ∧ s' = s`); the working form is `C13_flush_establishes`.
+* `recordValue_invariant_hserv_unmeetable` (REPAIRED): the hypothesis `hserv` the registered theorem
+  `C13_recordValue_invariant` used to have (every node, every unlimited state; still that of the
+  lemma `recordValue_inv`) is false for the value serializer the machine is really run with
+  (`fun node => ser … node v`), for EVERY value `v`.  The theorem now has the hypothesis of
+  `recordValue_inv_gen` at `C := PoolClean` (the field's node, clean pools), and
+  `C13_recordValue_invariant_ser` is instantiated below with the real `ser` on a nested record.
+* `C13_flush_invariant` (REPAIRED) used to assume the run `= (.ok rs', s')` and `RecInv`, under which
+  the loop does nothing; it now states exactly that (`flushBuffered fuel rs s = (.ok rs, s)`),
+  instance below; the working form is `C13_flush_establishes`.
 * `namesWf_unmeetable_by_finite_hash` / `nameInj_unmeetable_by_finite_hash` /
-  `driverHash_not_namesWf`: `NamesWf.hash_inj` (and `NameInj` for any program with a generic
-  record) cannot be met by a hash with finitely many values - neither the crate's 64-bit SipHash
-  nor the hash the driver runs the model with (`"H" ++ index`).  It is met by `hashDemo`.
+  `driverHash_not_namesWf`: the GLOBAL `NamesWf.hash_inj` (and `NameInj` for any program with a
+  generic record) cannot be met by a hash with finitely many values - neither the crate's 64-bit
+  SipHash nor the hash the driver runs the model with (`"H" ++ index`).  It is met by `hashDemo`.
+  REPAIRED: `C20_names_distinct` / `C20_names_distinct_of_nameInj` now ask injectivity only on the
+  (generic-record) keys the build registers (`NamesWfOn … (genericRecordKeys …)`, `NameInjOn …
+  (· ∈ builtKeys …)`), a decidable hypothesis; it is met by the driver's hash
+  (`driverHash_injOn`, `progF_namesWfOn_driverHash`, `names_distinct_driverHash_closed`, and for
+  any program `names_distinct_driverHash`).  The global forms are the corollaries
+  `C20_names_distinct_global`, `C20_names_distinct_of_nameInj_global`.
 * a dangling union branch key reads as `.null` (`branchNodes`: `S[k]?.getD .null`), so a field
   whose node is `union [99]` is "nullable" and omitting it "succeeds" (example below); harmless for
   frozen schemas (no dangling keys).
@@ -330,22 +338,6 @@ example : ∃ rs' s', flushBuffered 3 rsMid sMid = (.ok rs', s') ∧ s'.budget =
 
 example : (flushBuffered 3 rsMid sMid).2.out = [0xAA, 6, 2, 2, 120, 4, 2, 4, 0] := by decide +kernel
 
-/-- `C13_flush_invariant` "as stated" assumes `RecInv`, under which the slot at `current` is
-    empty: its content is that the loop does nothing.  (Not vacuous, but an identity.) -/
-theorem flush_invariant_is_identity (fields : List (String × Nat)) (enc : Nat → Bytes) (base : Bytes)
-    (fuel : Nat) (rs : RecordState) (s : SerState) (rs' : RecordState) (s' : SerState)
-    (hinv : RecInv fields enc base rs s)
-    (hok : flushBuffered fuel rs s = (.ok rs', s')) : rs' = rs ∧ s' = s := by
-  cases fuel with
-  | zero => simp [flushBuffered] at hok; exact ⟨hok.1.symm, hok.2.symm⟩
-  | succ fuel =>
-    unfold flushBuffered at hok
-    split at hok
-    · rename_i b hb
-      have := (hinv.2.1 _ b hb).1
-      omega
-    · simp at hok; exact ⟨hok.1.symm, hok.2.symm⟩
-
 def rsWait : RecordState :=
   { current := 1, buffers := { cap := true, slots :=
       [none, none, some { cap := true, data := [4, 2, 4, 0] }] } }
@@ -359,8 +351,10 @@ theorem rsWait_inv : RecInv flds encAll [0xAA] rsWait sMid := by
   · simp [rsWait] at hb; subst hb; exact ⟨by decide, by decide, rfl⟩
   · simp [rsWait] at hb
 
-example : RecInv flds encAll [0xAA] rsWait sMid :=
-  C13_flush_invariant flds encAll [0xAA] 3 rsWait sMid rsWait sMid rfl rsWait_inv rfl
+/-- `C13_flush_invariant`: between two fields (slot at `current` empty, a later slot occupied) the
+    loop leaves machine and writer unchanged, with any fuel -/
+example (fuel : Nat) : flushBuffered fuel rsWait sMid = (.ok rsWait, sMid) :=
+  C13_flush_invariant flds encAll [0xAA] fuel rsWait sMid rsWait_inv
 
 /-- `SlotInv` and the two duplicate situations. -/
 theorem rsWait_slotInv : SlotInv rsWait := by
@@ -380,12 +374,13 @@ example (s : SerState) : fieldIdx flds rsWait "c" = .ok 2 ∧
   C13_duplicate_buffered (f := ("c", 5)) (node := .array 1) flds_nodup rsWait_slotInv (i := 2) rfl rfl
     (b := { cap := true, data := [4, 2, 4, 0] }) rfl _ s
 
-/-! ### `C13_recordValue_invariant`: its `hserv` cannot be met by the real value serializer
+/-! ### `C13_recordValue_invariant`: the `hserv` it USED to have cannot be met by the real value serializer
 
 `recordValue` is called by `serFields` with `serv := fun node => ser ext allowSlow S node v`.
-`hserv` of `C13_recordValue_invariant` (= `recordValue_inv`) asks this to succeed with the same
-bytes on EVERY node and EVERY unlimited state (dirty pools included).  No value does:
-on the empty union every serializer call fails. -/
+The former `hserv` of `C13_recordValue_invariant` (still that of the lemma `recordValue_inv`) asked
+this to succeed with the same bytes on EVERY node and EVERY unlimited state (dirty pools
+included).  No value does: on the empty union every serializer call fails.  (The theorem has been
+restated; the instance with the real `ser` follows.) -/
 
 theorem ser_union_nil_fails (ext : Ext) (allowSlow : Bool) (S : Schema) :
     ∀ (v : SV) (s : SerState), (ser ext allowSlow S (.union []) v s).1 = .error .custom
@@ -418,8 +413,9 @@ theorem ser_union_nil_fails (ext : Ext) (allowSlow : Bool) (S : Schema) :
   | .struct _ _, _ => rfl
   | .structVariant _ _ _ _, _ => rfl
 
-/-- The hypothesis `hserv` of `C13_recordValue_invariant`, for the serializer the machine is really
-    run with, is false — for every value, schema, field index and encoding table. -/
+/-- The former hypothesis `hserv` of `C13_recordValue_invariant` (now only of `recordValue_inv`),
+    for the serializer the machine is really run with, is false — for every value, schema, field
+    index and encoding table. -/
 theorem recordValue_invariant_hserv_unmeetable (ext : Ext) (allowSlow : Bool) (S : Schema) (v : SV)
     (enc : Nat → Bytes) (idx : Nat) :
     ¬ (∀ node s, s.budget = none →
@@ -449,9 +445,9 @@ theorem exists_of_okT {σ α : Type} {x : Except (SerErr × σ) α × SerState} 
   | ok a => exact ⟨a, s', rfl⟩
   | error e => cases h
 
-/-- The form that IS met by the real serializer (and is the one the headline theorems use):
-    `recordValue_inv_gen` at `C := PoolClean`, `hserv` only at the field's node and on clean pools.
-    Here: `d` (the nested record) presented first, from the initial state with the pool of `s0`. -/
+/-- `C13_recordValue_invariant_ser` (hence `C13_recordValue_invariant`, whose hypothesis it
+    discharges with `ser_appends`) with the REAL serializer: `d` (the nested record) presented
+    first, from the initial state with the (non-empty, clean) pool of `s0`. -/
 example : ∃ rs' s',
     recordValue S flds { current := 0, buffers := { cap := false, slots := [] } } 3
       (fun node => ser extD false S node dVal) s0 = (.ok rs', s') ∧
@@ -459,27 +455,20 @@ example : ∃ rs' s',
   obtain ⟨rs', s', hok⟩ := exists_of_okT (x := recordValue S flds
     { current := 0, buffers := { cap := false, slots := [] } } 3
     (fun node => ser extD false S node dVal) s0) (by decide +kernel)
-  have h := recordValue_inv_gen PoolClean
-    (fun s buf s1 hp hc => by
-      have := (popBuffer_tr (P := True)).out s hc
-      rw [hp] at this
-      exact this.1)
-    flds encAll s0.out S { current := 0, buffers := { cap := false, slots := [] } } 3
-    (fun node => ser extD false S node dVal) s0 rs' s' rfl s0_clean (Nat.zero_le _)
+  have h := C13_recordValue_invariant_ser extD false flds encAll s0.out S
+    { current := 0, buffers := { cap := false, slots := [] } } 3 dVal s0 rs' s' rfl s0_clean
+    (Nat.zero_le _)
     (by
-      intro f node s hf hn hb hc
+      intro f node hf hn
       simp only [flds, List.getElem?_cons_zero, List.getElem?_cons_succ, Option.some.injEq] at hf
       subst hf
       have hn' := Option.some.inj hn
       subst hn'
       obtain ⟨t, ht⟩ := exists_of_fst_ok (m := ser extD false S S[6] dVal) (s := {}) (by decide +kernel)
-      obtain ⟨s', h1, h2, h3⟩ := ser_appends extD false S _ dVal t ht s hb hc
-      refine ⟨s', h1, ?_, h3⟩
-      rw [h2]
+      refine ⟨t, ht, ?_⟩
       have ho : t.out = (ser extD false S S[6] dVal {}).2.out := by rw [ht]
       rw [ho]
-      have : (ser extD false S S[6] dVal {}).2.out = encAll 3 := by decide +kernel
-      rw [this])
+      decide +kernel)
     ⟨by simp, fun i b hib => by simp at hib, Nat.zero_le _⟩ hok
   exact ⟨rs', s', hok, h.1, h.2.1, h.2.2 3 (.inr rfl)⟩
 
@@ -651,8 +640,9 @@ example : (schemaMut progF DeriveNames.hashDemo fuelF (.named 2 [])).map (fun Sm
     some [14, 2, 4, 4, 6, 0, 2, 120, 2, 4, 121, 121, 0, 2, 4, 2, 1, 0, 0, 2, 2, 122, 0, 0, 0, 0, 4, 1,
       0, 0, 2, 2, 122, 0, 2, 0, 0, 0, 2, 6, 1, 0, 0, 2, 2, 122, 0, 0, 0, 0] := by decide +kernel
 
-/-- `C20_schema_realizes_generic`, `C20_keys_in_bounds`, `C20_root_is_node_zero`,
-    `C20_names_distinct` need `NamesWf`: -/
+/-- `C20_names_distinct_global` needs the global `NamesWf` (met by the injective `hashDemo`; the
+    instance of `C20_names_distinct` proper with the driver's non-injective hash is
+    `names_distinct_driverHash_closed` below): -/
 theorem progF_namesWf : NamesWf progF DeriveNames.hashDemo where
   newtype_nongeneric := by rw [prog_forall_iff]; decide
   generic_union_safe := by rw [prog_forall_iff]; decide
@@ -674,13 +664,13 @@ theorem inv_closed :
   | none => exact absurd h (by decide +kernel)
   | some Sm =>
     exact ⟨Sm, rfl, C20_keys_in_bounds _ _ _ _ Sm h, C20_root_is_node_zero _ _ _ _ Sm h,
-      C20_names_distinct _ _ _ _ Sm h progF_namesWf,
+      C20_names_distinct_global _ _ _ _ Sm h progF_namesWf,
       (C20_schema_realizes_generic _ _ _ _ Sm h progF_fitWfG).2⟩
 
-/-- `C20_names_distinct_of_nameInj` (hypotheses `StructWf`, `NameInj`) on the same build. -/
+/-- `C20_names_distinct_of_nameInj_global` (hypotheses `StructWf`, `NameInj`) on the same build. -/
 example (Sm : SchemaMut) (h : schemaMut progF DeriveNames.hashDemo fuelF (.named 2 []) = some Sm) :
     (definedNames Sm).Nodup :=
-  C20_names_distinct_of_nameInj _ _ _ _ Sm h progF_namesWf.toStructWf
+  C20_names_distinct_of_nameInj_global _ _ _ _ Sm h progF_namesWf.toStructWf
     (DeriveNames.nameInj_of_textWf progF_namesWf.toTextWf)
 
 example : (schemaMut progF DeriveNames.hashDemo fuelF (.named 2 [])).map definedNames =
@@ -830,7 +820,9 @@ example : findOrBuild progF DeriveNames.hashDemo 1000 (.vec (.named 0 [.i64])) s
   C20_built_once_reuse progF _ 446 1000 (by decide) _ s1 s2 k2 r2_eq
 
 
-/-! ## The demands of `NamesWf` on `hash` -/
+/-! ## The demands of the GLOBAL `NamesWf` / `NameInj` on `hash` (hypotheses of the corollaries
+`C20_names_distinct_global`, `C20_names_distinct_of_nameInj_global`; before the repair, of
+`C20_names_distinct`, `C20_names_distinct_of_nameInj` themselves) -/
 
 /-- No injection from `Nat` into `Fin n`. -/
 theorem no_inj_nat_fin : ∀ (n : Nat) (f : Nat → Fin n), ¬ (∀ i j, f i = f j → i = j)
@@ -853,8 +845,9 @@ theorem no_inj_nat_fin : ∀ (n : Nat) (f : Nat → Fin n), ¬ (∀ i j, f i = f
     omega
 
 /-- `NamesWf.hash_inj` (injectivity on ALL keys) cannot be met by a hash with finitely many values —
-    such as the crate's (a 64-bit SipHash rendered as text): for it `C20_names_distinct` says
-    nothing, for any program. -/
+    such as the crate's (a 64-bit SipHash rendered as text): for it `C20_names_distinct_global`
+    says nothing, for any program.  (`C20_names_distinct` itself now asks `NamesWfOn` on the
+    generic-record keys the build registers; see the next section.) -/
 theorem namesWf_unmeetable_by_finite_hash (P : Prog) (n : Nat) (h : Key → Fin n)
     (render : Fin n → String) : ¬ NamesWf P (fun k => render (h k)) := by
   intro hW
@@ -881,8 +874,9 @@ theorem driverHash_not_namesWf (P : Prog) (keyStr : Key → String) (labels : Li
     (fun k => ⟨labels.idxOf (keyStr k), Nat.lt_succ_of_le List.idxOf_le_length⟩)
     (fun x => "H" ++ toString x.val)
 
-/-- `NameInj` (the weaker hypothesis of `C20_names_distinct_of_nameInj`) fails the same way as soon
-    as the program has a generic record: two of its (possible) instantiations share a name. -/
+/-- `NameInj` (the weaker hypothesis of `C20_names_distinct_of_nameInj_global`) fails the same way
+    as soon as the program has a generic record: two of its (possible) instantiations share a
+    name.  (`C20_names_distinct_of_nameInj` itself now asks `NameInjOn` on the built keys.) -/
 theorem nameInj_unmeetable_by_finite_hash (P : Prog) (id : Nat) (d : Decl) (fs : List Field)
     (hP : P[id]? = some d) (hb : d.body = .record fs) (hn : d.nparams ≠ 0)
     (n : Nat) (h : Key → Fin n) (render : Fin n → String) :
@@ -904,6 +898,203 @@ example (keyStr : Key → String) (labels : List String) :
   nameInj_unmeetable_by_finite_hash progF 0 _ _ rfl rfl (by decide) (labels.length + 1)
     (fun k => ⟨labels.idxOf (keyStr k), Nat.lt_succ_of_le List.idxOf_le_length⟩)
     (fun x => "H" ++ toString x.val)
+
+
+/-! ## The repaired hypotheses (`NamesWfOn` on `genericRecordKeys`, `NameInjOn` on `builtKeys`) are
+met by the hash the driver runs the model with -/
+
+theorem ite_ne {α} {c : Prop} [Decidable c] {a b x : α} (ha : a ≠ x) (hb : b ≠ x) :
+    (if c then a else b) ≠ x := by
+  split <;> assumption
+
+theorem digitChar_ne_dot (m : Nat) : Nat.digitChar m ≠ '.' := by
+  unfold Nat.digitChar
+  repeat (refine ite_ne (by decide) ?_)
+  decide
+
+theorem toDigitsCore_nodot : ∀ (fuel n : Nat) (ds : List Char), '.' ∉ ds →
+    '.' ∉ Nat.toDigitsCore 10 fuel n ds
+  | 0, _, ds, h => by simpa [Nat.toDigitsCore] using h
+  | fuel + 1, n, ds, h => by
+    have hd : '.' ∉ Nat.digitChar (n % 10) :: ds := by
+      simp only [List.mem_cons, not_or]
+      exact ⟨(digitChar_ne_dot _).symm, h⟩
+    simp only [Nat.toDigitsCore]
+    split
+    · exact hd
+    · exact toDigitsCore_nodot fuel _ _ hd
+
+theorem toString_nat_nodot (n : Nat) : '.' ∉ (toString n).toList := by
+  simp only [Nat.toString_eq_repr, Nat.toList_repr, Nat.toDigits]
+  exact toDigitsCore_nodot _ _ _ (by simp)
+
+theorem toString_nat_inj {n m : Nat} (h : toString n = toString m) : n = m := by
+  have := congrArg String.toList h
+  simp only [Nat.toString_eq_repr, Nat.toList_repr] at this
+  exact DeriveNames.repr_inj this
+
+/-- The driver's hash never contains a dot … -/
+theorem driverHash_nodot (keyStr : Key → String) (labels : List String) (k : Key) :
+    '.' ∉ (driverHash keyStr labels k).toList := by
+  unfold driverHash
+  rw [String.toList_append]
+  intro hm
+  rcases List.mem_append.1 hm with hm | hm
+  · revert hm; decide
+  · exact toString_nat_nodot _ hm
+
+/-- … and is injective on every list of keys on which the rendering `keyStr` is injective and
+    whose renderings are all labelled.  (The driver extracts `labels` from a first build in which
+    `hash k` embeds `keyStr k`: every key whose hash enters a name is labelled.) -/
+theorem driverHash_injOn (keyStr : Key → String) (labels : List String) (Ks : List Key)
+    (hinj : ∀ k ∈ Ks, ∀ k' ∈ Ks, keyStr k = keyStr k' → k = k')
+    (hlab : ∀ k ∈ Ks, keyStr k ∈ labels) :
+    (∀ k ∈ Ks, ∀ k' ∈ Ks, driverHash keyStr labels k = driverHash keyStr labels k' → k = k') ∧
+    (∀ k ∈ Ks, '.' ∉ (driverHash keyStr labels k).toList) := by
+  refine ⟨fun k hk k' hk' h => ?_, fun k _ => driverHash_nodot keyStr labels k⟩
+  unfold driverHash at h
+  have hi := toString_nat_inj (DeriveNames.str_append_left_cancel h)
+  have h1 := List.idxOf_lt_length_iff.2 (hlab k hk)
+  have h2 := List.idxOf_lt_length_iff.2 (hlab k' hk')
+  have e1 := List.getElem_idxOf h1
+  have e2 := List.getElem_idxOf h2
+  refine hinj k hk k' hk' ?_
+  rw [← e1, ← e2]
+  simp only [hi]
+
+/-- `C20_names_distinct` for ANY program built with the driver's hash: the program-text conditions
+    (`NamesWfOn` on the empty list: its two fields about the hash are void, the others do not
+    mention the hash), a rendering injective on the generic-record keys the build registers, all
+    of them labelled. -/
+theorem names_distinct_driverHash (P : Prog) (keyStr : Key → String) (labels : List String)
+    (fuel : Nat) (root : Ty) (S : SchemaMut) (h0 : Key → String)
+    (h : schemaMut P (driverHash keyStr labels) fuel root = some S) (hW : NamesWfOn P h0 [])
+    (hinj : ∀ k ∈ DeriveNames.genericRecordKeys P (driverHash keyStr labels) fuel root,
+      ∀ k' ∈ DeriveNames.genericRecordKeys P (driverHash keyStr labels) fuel root,
+      keyStr k = keyStr k' → k = k')
+    (hlab : ∀ k ∈ DeriveNames.genericRecordKeys P (driverHash keyStr labels) fuel root,
+      keyStr k ∈ labels) : (definedNames S).Nodup := by
+  obtain ⟨h1, h2⟩ := driverHash_injOn keyStr labels _ hinj hlab
+  exact C20_names_distinct P _ fuel root S h
+    { toStructWf := hW.toStructWf
+      start_ok := hW.start_ok, distinct := hW.distinct, no_u8_array := hW.no_u8_array
+      generic_prefix_free := hW.generic_prefix_free, hash_inj := h1, hash_nodot := h2 }
+
+/-! ### Closed instance: `progF`, the driver's fuel, the driver's hash -/
+
+/-- The lookup keys of the two instantiations `Pair<i64>`, `Pair<String>`. -/
+def kLong : Key := [.generic 0 2, .long, .vec, .long]
+def kStr : Key := [.generic 0 2, .string, .vec, .string]
+
+/-- A concrete (kernel-computable, injective: `hashDemo_inj`) rendering of keys, standing for the
+    driver's `toString (repr k)`. -/
+def keyStrF : Key → String := DeriveNames.hashDemo
+
+/-- What the driver's first build yields as labels: the renderings of the keys whose hash occurs
+    in a defined name, in order of first appearance (`m.Pair_⟦…long…⟧` before
+    `m.Pair_⟦…string…⟧`). -/
+def labelsF : List String := [keyStrF kLong, keyStrF kStr]
+
+/-- The driver's extraction of the labels from the names of its first build (`Driver/Main.lean`,
+    `runDerive`), which embeds `keyStr k` between `⟦` and `⟧`.  (`String.splitOn` does not reduce
+    in the kernel, so the agreement with `labelsF` is checked by evaluation only.) -/
+def driverLabels (names : List String) : List String :=
+  names.foldl (fun acc nm =>
+      ((nm.splitOn "⟦").drop 1).foldl (fun acc p =>
+        let k := (p.splitOn "⟧").headD ""
+        if acc.contains k then acc else acc ++ [k]) acc) []
+
+#guard (schemaMut progF (fun k => "⟦" ++ keyStrF k ++ "⟧") fuelF (.named 2 [])).map
+    (fun S => driverLabels (definedNames S)) == some labelsF
+
+/-- The hash of the driver's second build. -/
+def hashF : Key → String := driverHash keyStrF labelsF
+
+/-- It is not injective: every unlabelled key gets `"H2"`. -/
+example : hashF [.self 0] = hashF [.self 1] ∧ hashF [.self 0] = "H2" ∧ hashF kLong = "H0" ∧
+    hashF kStr = "H1" := by decide +kernel
+
+/-- The keys the build registers (all of them), and those of generic records. -/
+example : DeriveNames.builtKeys progF hashF fuelF (.named 2 []) =
+    [[.unit], [.option, .self 2], [.vec, .self 2], [.self 1], [.vec, .string], [.string], kStr,
+     [.vec, .long], [.long], kLong, [.int], [.self 2]] := by decide +kernel
+
+theorem genericRecordKeys_progF :
+    DeriveNames.genericRecordKeys progF hashF fuelF (.named 2 []) = [kStr, kLong] := by
+  decide +kernel
+
+/-- The hypothesis of `C20_names_distinct` with the driver's hash: the program-text fields by
+    evaluation, the two fields about the hash from `driverHash_injOn`. -/
+theorem progF_namesWfOn_driverHash :
+    NamesWfOn progF hashF (DeriveNames.genericRecordKeys progF hashF fuelF (.named 2 [])) := by
+  have hh := driverHash_injOn keyStrF labelsF [kStr, kLong]
+    (fun k _ k' _ => DeriveNames.hashDemo_inj k k') (by decide +kernel)
+  rw [genericRecordKeys_progF]
+  exact
+    { newtype_nongeneric := by rw [prog_forall_iff]; decide
+      generic_union_safe := by rw [prog_forall_iff]; decide
+      logical_dupSafe := by rw [prog_forall_iff]; decide
+      field_names_nodup := by rw [prog_forall_iff]; decide
+      variant_idents_nodup := by rw [prog_forall_iff]; decide
+      start_ok := by rw [prog_forall_iff]; decide
+      distinct := by simp only [prog_forall_iff]; decide
+      no_u8_array := by rw [prog_forall_iff]; decide
+      generic_prefix_free := by simp only [prog_forall_iff]; decide
+      hash_inj := hh.1
+      hash_nodot := hh.2 }
+
+/-- … the two fields about the hash are also decidable outright. -/
+example : (∀ k ∈ DeriveNames.genericRecordKeys progF hashF fuelF (.named 2 []),
+      ∀ k' ∈ DeriveNames.genericRecordKeys progF hashF fuelF (.named 2 []),
+      hashF k = hashF k' → k = k') ∧
+    (∀ k ∈ DeriveNames.genericRecordKeys progF hashF fuelF (.named 2 []),
+      '.' ∉ (hashF k).toList) := by decide +kernel
+
+/-- `C20_names_distinct`, closed, with the hash the driver really runs the model with. -/
+theorem names_distinct_driverHash_closed :
+    ∃ Sm, schemaMut progF hashF fuelF (.named 2 []) = some Sm ∧ (definedNames Sm).Nodup := by
+  cases h : schemaMut progF hashF fuelF (.named 2 []) with
+  | none => exact absurd h (by decide +kernel)
+  | some Sm => exact ⟨Sm, rfl, C20_names_distinct _ _ _ _ Sm h progF_namesWfOn_driverHash⟩
+
+example : (schemaMut progF hashF fuelF (.named 2 [])).map definedNames =
+    some ["m.Tree", "m.Pair_H0", "m.Pair_H1", "m.Color"] := by decide +kernel
+
+/-- `C20_names_distinct_of_nameInj` (hypotheses `StructWf`, `NameInjOn` on the built keys) with
+    the driver's hash, `NameInjOn` obtained from `nameInjOn_of_textWfOn`. -/
+theorem progF_nameInjOn_driverHash :
+    DeriveNames.NameInjOn progF hashF (fun k => k ∈ DeriveNames.builtKeys progF hashF fuelF (.named 2 [])) :=
+  DeriveNames.nameInjOn_of_textWfOn progF_namesWfOn_driverHash.toTextWfOn
+    (fun _ hk hg => List.mem_filter.2 ⟨hk, hg⟩)
+
+example (Sm : SchemaMut) (h : schemaMut progF hashF fuelF (.named 2 []) = some Sm) :
+    (definedNames Sm).Nodup :=
+  C20_names_distinct_of_nameInj _ _ _ _ Sm h progF_namesWfOn_driverHash.toStructWf
+    progF_nameInjOn_driverHash
+
+/-- The restricted injectivity is needed: a hash that collides on the two registered
+    generic-record keys defines `m.Pair_X` twice (and fails `NamesWfOn.hash_inj` there). -/
+example : (schemaMut progF (fun _ => "X") fuelF (.named 2 [])).map definedNames =
+    some ["m.Tree", "m.Pair_X", "m.Pair_X", "m.Color"] := by decide +kernel
+
+example : ¬ NamesWfOn progF (fun _ => "X")
+    (DeriveNames.genericRecordKeys progF (fun _ => "X") fuelF (.named 2 [])) := by
+  intro h
+  have e : DeriveNames.genericRecordKeys progF (fun _ => "X") fuelF (.named 2 []) = [kStr, kLong] := by
+    decide +kernel
+  have := h.hash_inj kStr (by rw [e]; decide) kLong (by rw [e]; decide) rfl
+  revert this; decide
+
+/-- … while the global hypotheses stay out of reach of that hash. -/
+example : ¬ NamesWf progF hashF := driverHash_not_namesWf progF keyStrF labelsF
+
+/-- The general form on the same instance (any labels covering the two keys would do). -/
+example (Sm : SchemaMut) (h : schemaMut progF hashF fuelF (.named 2 []) = some Sm) :
+    (definedNames Sm).Nodup :=
+  names_distinct_driverHash progF keyStrF labelsF fuelF _ Sm DeriveNames.hashDemo h (progF_namesWf.on [])
+    (fun k _ k' _ => DeriveNames.hashDemo_inj k k')
+    (by rw [show DeriveNames.genericRecordKeys progF (driverHash keyStrF labelsF) fuelF (.named 2 []) =
+          [kStr, kLong] from genericRecordKeys_progF]; decide +kernel)
 
 /-- C14 on a derived schema: `C20_keys_in_bounds` + `freezeNodes_keysInBounds` discharge the second
     disjunct of `C14_no_assert_panic_of_get` — no serializer call tree at all (of the type or
